@@ -25,6 +25,7 @@ from mc.ref.dims import dim_of
 PROPERTY = "C13"
 
 import unyt
+from unyt.exceptions import UnitParseError
 from unyt import dimensions as udims
 from unyt._unit_lookup_table import default_unit_symbol_lut
 from unyt.unit_object import Unit
@@ -378,7 +379,11 @@ class System:
                 break
         for i, r in sorted(w.regs.items()):
             for n in ("km", "m"):
-                if Unit(n, registry=r).registry is not r:
+                try:
+                    own = Unit(n, registry=r)
+                except UnitParseError:
+                    continue  # the history made this name unknown here (m re-added as non-prefixable, ...)
+                if own.registry is not r:
                     ctx.violation(f"C13|isolation|registry={i}|last={last}@{last_target}|mode=registry's-own-unit-rebound-to-another-registry", dict(case, registry=i), None, None)
                     break
         if set(vars(unyt)) - world._PRISTINE_UNYT_NAMES:
